@@ -426,6 +426,8 @@ func checkC03(p *Program, r *Result) {
 	}
 	// ---- e: after loadChunk, no yield without passing the loop head again
 	checkReloopAfterLoad(p, r, ni)
+	r.rule("C03.h", "repeating a read gives the same sequence: slices of the cached Info are never filtered or sorted in place", 1)
+	checkInfoReadOnlyAs(p, r, "C03.h")
 	r.rule("C03.g", "the yielded record and the load trigger are those of the queue entry at the cursor", 0)
 	checkCursorDiscipline(p, r, "C03.g")
 }
